@@ -234,6 +234,40 @@ pub fn generate(files: &[SourceFile], report: &mut Report) -> String {
     out.push_str(&order.iter().map(|x| lean_str(x)).collect::<Vec<_>>().join(", "));
     out.push_str("]\n");
     report.count("transfer_order", order.len());
+    // the order, in source, of the accesses to the map's control words in the two functions
+    // that join a running resize (`Proto/Resize` models exactly this order, see finding F6)
+    for (fname, lname) in [("add_count", "addCountAccessOrder"), ("help_transfer", "helpTransferAccessOrder")] {
+        let mut order: Vec<String> = vec![];
+        if let Some(f) = file(files, "map.rs") {
+            if let Some(fi) = find_fn(f, fname) {
+                struct A<'a> {
+                    out: &'a mut Vec<String>,
+                }
+                impl<'ast, 'a> Visit<'ast> for A<'a> {
+                    fn visit_expr_method_call(&mut self, m: &'ast syn::ExprMethodCall) {
+                        syn::visit::visit_expr_method_call(self, m);
+                        let name = m.method.to_string();
+                        let recv = tokens_of(&m.receiver).replace(' ', "");
+                        let field = ["size_ctl", "transfer_index", "next_table", "table", "count"].iter().find(|f| recv == format!("self.{}", f));
+                        if let Some(f) = field {
+                            let k = match name.as_str() {
+                                "load" => "load",
+                                "compare_exchange" | "compare_exchange_weak" => "cas",
+                                "store" => "store",
+                                "swap" => "swap",
+                                "fetch_add" | "fetch_sub" => "rmw",
+                                _ => return,
+                            };
+                            self.out.push(format!("{}:{}", k, f));
+                        }
+                    }
+                }
+                let mut a = A { out: &mut order };
+                a.visit_block(fi.block);
+            }
+        }
+        out.push_str(&format!("\n/-- `{}`: accesses to the control words, in source order -/\ndef {} : List String := [{}]\n", fname, lname, order.iter().map(|x| lean_str(x)).collect::<Vec<_>>().join(", ")));
+    }
     out.push_str("\nend Flurry.Gen\n");
     report.count("read_closure", clos.len());
     report.count("atomic_sites", sites.len());
